@@ -1073,6 +1073,24 @@ def altloc_input(prot, n=1):
     return path
 
 
+def error_input(prot, n=1):
+    """copy of the test structure with `n` extra one-atom residues GLY (element ZN, far from everything else): the
+    residue has no atom in common with its reference block, for which repair_graph logs 'Can't find isomorphism ...' at
+    ERROR level (type 'inconsistent-data') WITHOUT raising; the run goes on to the gate (each such atom also gives one
+    'unmapped-atom' WARNING later on).  Records above warning level can not be waived with -maxwarn."""
+    lines = [l for l in open(aa(prot)).readlines() if l.startswith('ATOM')]
+    last_resid = max(int(l[22:26]) for l in lines)
+    for k in range(n):
+        lines.append('ATOM  %5d  ZN  GLY  %4d    %8.3f%8.3f%8.3f  1.00  0.00          ZN  \n'
+                     % (len(lines) + 1, last_resid + 1 + k, 140.0 + 30 * k, 140.0, 140.0))
+    lines.append('END\n')
+    path = os.path.join(INPUTS, 'error%d_%s.pdb' % (n, prot))
+    if not os.path.exists(path):
+        with open(path, 'w') as f:
+            f.writelines(lines)
+    return path
+
+
 def chains_input(prot, chains='AB', shift=60.0):
     """the test structure repeated once per chain letter, translated along x: several identical molecules"""
     lines = [l for l in open(aa(prot)) if l.startswith('ATOM')]
@@ -1283,13 +1301,14 @@ for (cid, ln, impl, errs, special), mo in zip(lib_rows, lib_models):
 # ---- one CLI job ----------------------------------------------------------------------------------
 def mkjob(cid, branch, inp, extra=(), x='cg.pdb', o='topol.top', maxwarn=(), pre=(), name=None, sep=False,
           go='off', go_write=None, water_bias=False, dssp='off', v=0, graph=None, repair=None, canon=None,
-          abort=None, need_warn=False, want_left=None, cost=1.0):
+          abort=None, need_warn=False, want_left=None, need_above=0, cost=1.0):
     """A CLI run.  The options that decide WHICH files are written are structured (they are the input of the
     Lean model `outputs`); everything else is in `extra`.  abort: None, or 'usage' (argparse error, exit 2 before
     anything is read), 'info' (-list-*: exit 0, nothing written), 'raise' (uncaught exception)."""
     return dict(cid=cid, branch=branch, inp=inp, extra=list(extra), x=x, o=o, maxwarn=[list(g) for g in maxwarn],
                 pre=list(pre), name=name, sep=sep, go=go, go_write=go_write, water_bias=water_bias, dssp=dssp, v=v,
                 graph=graph, repair=repair, canon=canon, abort=abort, need_warn=need_warn, want_left=want_left,
+                need_above=need_above,
                 cost=cost)
 
 
@@ -1337,7 +1356,7 @@ def cli_eval(j):
         return {'cid': j['cid'], 'ln': line('cli-harness-failure', j['cid']), 'impl': 'harness-failure', 'errs':
                 ['harness: worker failed: ' + traceback.format_exc()[-1500:]], 'nontrivial': False, 'finding': None,
                 'counts': ['cli_worker_failure'], 'use_model': False, 'facts': None, 'kind': 'failed',
-                'branch': j['branch'], 'argv': [], 'shapes': [], 'ln2': None, 'impl2': None, 'cov': {}}
+                'branch': j['branch'], 'argv': [], 'shapes': [], 'above_only': False, 'ln2': None, 'impl2': None, 'cov': {}}
 
 
 def cli_eval_(j):
@@ -1369,6 +1388,7 @@ def cli_eval_(j):
                 ent_gate.append([l, t, c])
     left = leftover_oracle(ent_gate, specs)
     nwarn = sum(c for l, t, c in ent_gate if l >= logging.WARNING)
+    nabove = sum(c for l, t, c in ent_gate if l > logging.WARNING)
     new = sorted(set(r['after']) - set(pre))
     changed = sorted(n for n in pre if r['after'].get(n) != pre[n])
     artefacts = [n for n in new if DSSP_TMP_RE.fullmatch(n)]
@@ -1465,6 +1485,9 @@ def cli_eval_(j):
     if j['need_warn'] and not nwarn:
         errs.append('harness: the run was built to produce a counted warning and produced none (the case no longer '
                     'exercises what it was made for)')
+    if j['need_above'] and (nabove != j['need_above'] or not reached):
+        errs.append('harness: the run was built to reach the gate with %d records above warning level in the counter, '
+                    'it has %d (gate reached: %s)' % (j['need_above'], nabove, reached))
     if j['want_left'] is not None and left != j['want_left']:
         errs.append('harness: the run was built to leave exactly %d warnings, it leaves %d' % (j['want_left'], left))
     # CountingHandler.number_of_counts_by against the plain sums over its table
@@ -1477,7 +1500,10 @@ def cli_eval_(j):
                 counts.append('counts_by_queries')
                 if got != want:
                     errs.append('number_of_counts_by(level=%r, type=%r) = %r, table sums to %d' % (lvl, typ, got, want))
-    counts += ['cli_exit=%s' % (r['code'],), 'cli_warnings=%d' % min(nwarn, 3),
+    above_only = bool(j['abort'] is None and reached and nabove and left == nabove)
+    if above_only:
+        counts.append('cli_leftover_only_above_warning_level')
+    counts += ['cli_exit=%s' % (r['code'],), 'cli_warnings=%d' % min(nwarn, 3), 'cli_above_warning=%d' % min(nabove, 3),
                'cli_leftover=%d' % (left if left % 256 == 0 else min(left, 3)),
                'cli_deferred_outputs=%d' % len(r['gate']), 'cli_%s' % kind, 'branch:%s/%s' % (j['branch'], kind)]
     shapes = []
@@ -1541,7 +1567,7 @@ def cli_eval_(j):
              'ent_gate': ent_gate, 'specs': specs, 'left': left, 'code': r['code']}
     return {'cid': j['cid'], 'ln': ln, 'impl': impl, 'errs': errs, 'nontrivial': nwarn >= 1 or bool(dumps),
             'finding': finding, 'counts': counts, 'use_model': use_model and not finding, 'facts': facts,
-            'kind': kind, 'branch': j['branch'], 'argv': argv, 'shapes': shapes, 'ln2': ln2, 'impl2': impl2, 'cov': chk.worker_lines()}
+            'kind': kind, 'branch': j['branch'], 'argv': argv, 'shapes': shapes, 'above_only': above_only, 'ln2': ln2, 'impl2': impl2, 'cov': chk.worker_lines()}
 
 
 # ---- the plan ---------------------------------------------------------------------------------------
@@ -1588,6 +1614,17 @@ J('gate-altloc256', altloc_input('dipro-termini', 300), ['-ff', 'martini3001', '
 FFW = ['-ff', 'martini3001', '-nt', '-noscfix', '-ss', 'C', '-ff-dir', ffwarn_dir()]
 J('gate-ffwarn', DIPRO, FFW, pre=['cg.pdb'], need_warn=True)
 J('gate-ffwarn', DIPRO, FFW, maxwarn=[['1']], pre=['cg.pdb'], need_warn=True)
+
+# records ABOVE warning level that are logged without raising (repair_graph: 'Can't find isomorphism', ERROR): they count
+# at the gate and no -maxwarn waives them.  In these runs every WARNING-level record is waived, so the leftover consists
+# of the ERROR records alone: exit 2 and no output (leftover_oracle counts the captured per-level table).
+ERR1, ERR2 = error_input('dipro-termini', 1), error_input('dipro-termini', 2)
+ERR_OPTS = ['-ff', 'martini3001', '-noscfix', '-ss', 'C']
+J('gate-error-level', ERR1, ERR_OPTS, maxwarn=[['unmapped-atom']], pre=['cg.pdb', 'topol.top'], need_warn=True, need_above=1, want_left=1)
+J('gate-error-level', ERR1, ERR_OPTS, maxwarn=[['99']], need_warn=True, need_above=1, want_left=1)          # a blanket allowance does not reach them
+J('gate-error-level', ERR2, ERR_OPTS, maxwarn=[['unmapped-atom:9', 'inconsistent-data:9']], pre=['molecule_0.itp'],
+  need_warn=True, need_above=2, want_left=2)                                                                 # nor one naming their type
+J('gate-error-level', ERR1, ERR_OPTS, need_warn=True, need_above=1, want_left=2)                             # unwaived warning + error
 
 # (1b) every shape of -maxwarn token with warnings present.  The expected leftover (want_left, worked out by hand) and the
 #      gate model start from the harness's own reading of the documented grammar, never from the parser of bin/martinize2.
@@ -1804,6 +1841,12 @@ if not any('blocked' in shape_seen.get(sh, ()) for sh in ('empty-type:N',)):
     shape_errs.append('harness: no blocked run with a -maxwarn token of the shape :N')
 chk.extra['cli_maxwarn_token_shapes'] = {sh: sorted(k) for sh, k in sorted(shape_seen.items())}
 chk.case('cli-maxwarn-token-shapes', line('shapes', sorted(shape_seen)), 'ok' if not shape_errs else 'incomplete', None, shape_errs, True)
+
+# the gate must have been reached with a leftover that consists of records above warning level only
+n_above_only = sum(1 for r in cli_rows if r.get('above_only') and r['kind'] == 'blocked')
+chk.case('cli-leftover-above-warning-level', line('aboveonly', n_above_only), 'ok' if n_above_only >= 2 else 'incomplete', None,
+         [] if n_above_only >= 2 else ['harness: %d blocked runs whose leftover consists of records above warning level only '
+                                       '(needs 2)' % n_above_only], True)
 
 shutil.rmtree(SCRATCH, ignore_errors=True)
 chk.finish()
